@@ -684,7 +684,8 @@ def replay_file(path: str) -> int:
     if out.violation is None:
         print(f"REPLAY-MISMATCH property={prop} expected {exp['oracle']} {exp['sig']} but the run was clean")
         return EXIT_HARNESS
-    if (out.violation.oracle, out.violation.sig) != (exp["oracle"], exp["sig"]) or out.digest != exp["digest"]:
+    digest_exact = True
+    if (out.violation.oracle, out.violation.sig) != (exp["oracle"], exp["sig"]) or (digest_exact and out.digest != exp["digest"]):
         print(f"REPLAY-MISMATCH property={prop} expected {exp} got {out.violation.oracle} {out.violation.sig} {out.digest}")
         return EXIT_HARNESS
     print(json.dumps(out.violation.as_dict(), indent=1, default=repr))
@@ -724,7 +725,8 @@ def finish(prop: str, tier: str, base_seed: int, merged: dict, engine: Any, shri
         except HarnessError as e:
             merged["harness_errors"].append({"error": f"replay of found violation failed: {e}"})
             continue
-        if out0.key() != key or out0.digest != entry["digest"]:
+        digest_exact = True
+        if out0.key() != key or (digest_exact and out0.digest != entry["digest"]):
             merged["harness_errors"].append({"error": f"nondeterministic replay for seed {entry['seed']}: {key}/{entry['digest']} vs {out0.key()}/{out0.digest}"})
             continue
         small, n = shrink(engine, entry["record"], key, shrink_budget)
